@@ -823,6 +823,20 @@ func (e *Engine) checkHealth(w *Walk) error {
 			return e.viol("slab %s is reachable but not listed by the storage", id)
 		}
 	}
+	// right after a commit the ledger itself must hold exactly the reachable owned slabs
+	if e.St.DeltasWithoutTempAddresses() == 0 {
+		for _, id := range e.L.Keys() {
+			if _, ok := w.Slabs[id]; !ok {
+				return e.viol("leaked register: %s is in the ledger but not reachable from the %d live roots", id, len(e.Roots))
+			}
+		}
+		for id := range w.Slabs {
+			if _, ok := e.L.Regs[id]; !ok && !id.HasTempAddress() {
+				return e.viol("slab %s is reachable but has no register although nothing is pending", id)
+			}
+		}
+		e.Stats.label("ledger_equals_reachable_checked")
+	}
 	roots, err := atree.CheckStorageHealth(e.St, len(e.Roots))
 	if err != nil {
 		return e.viol("in-repo health check rejects a storage the independent walk finds healthy: %v", err)
